@@ -59,6 +59,9 @@ type Scenario struct {
 	Gen  func(rng *rand.Rand, c *Case) // fills c.Cfg / c.Ops from the PRNG
 	Run  func(w *World)                // builds the world, runs the simulation, records violations
 	Pure bool                          // no simulator world needed (Run receives a bare World)
+	// Mask: configuration overrides under which the property's known findings cannot manifest
+	// (DESIGN 5.3).  A violation counts as a known finding only if it disappears under the mask.
+	Mask map[string]int
 }
 
 var scenarios = map[string]*Scenario{}
@@ -244,6 +247,8 @@ type FoundViolation struct {
 	Tries  int    `json:"minimise_tries"`
 	OpsBefore int `json:"ops_before"`
 	OpsAfter  int `json:"ops_after"`
+	MaskApplied      bool `json:"mask_applied"`       // the failing run already ran under the property's mask
+	MaskedStillFails bool `json:"masked_still_fails"` // the minimised case also fails with the mask switched on
 }
 
 func envInt(k string, def int) int {
@@ -357,6 +362,26 @@ func Main(t *testing.T) {
 					mc.Note = x.Msg
 				}
 			}
+			if mask := scenarios[prop].Mask; mask != nil {
+				fv.MaskApplied = true
+				for k, v := range mask {
+					if mc.Cfg[k] != v {
+						fv.MaskApplied = false
+					}
+				}
+				if !fv.MaskApplied {
+					masked := *mc
+					masked.Cfg = map[string]int{}
+					for k, v := range mc.Cfg {
+						masked.Cfg[k] = v
+					}
+					for k, v := range mask {
+						masked.Cfg[k] = v
+					}
+					mr := Execute(t, &masked)
+					fv.MaskedStillFails = mr.Infra != "" || hasSig(mr.Viol, v.Sig)
+				}
+			}
 			if replayDir != "" {
 				_ = os.MkdirAll(replayDir, 0755)
 				name := fmt.Sprintf("%s-%s-%d.json", prop, sanitize(v.Sig), c.Seed)
@@ -409,6 +434,8 @@ func replay(t *testing.T, path, out string) {
 	}
 	r := Execute(t, &c)
 	type rep struct {
+		MaskApplied      bool  `json:"mask_applied"`
+		MaskedStillFails bool  `json:"masked_still_fails"`
 		Reproduced bool        `json:"reproduced"`
 		HashMatch  bool        `json:"hash_match"`
 		Hash       string      `json:"hash"`
@@ -418,6 +445,24 @@ func replay(t *testing.T, path, out string) {
 	o := rep{Viol: r.Viol, Infra: r.Infra, Hash: strconv.FormatUint(r.Hash, 16)}
 	o.Reproduced = c.ExpectSig == "" && len(r.Viol) > 0 || hasSig(r.Viol, c.ExpectSig)
 	o.HashMatch = c.ExpectHash == "" || c.ExpectHash == o.Hash
+	if mask := scenarios[c.Prop].Mask; mask != nil && o.Reproduced {
+		o.MaskApplied = true
+		masked := c
+		masked.Cfg = map[string]int{}
+		for k, v := range c.Cfg {
+			masked.Cfg[k] = v
+		}
+		for k, v := range mask {
+			if c.Cfg[k] != v {
+				o.MaskApplied = false
+			}
+			masked.Cfg[k] = v
+		}
+		if !o.MaskApplied {
+			mr := Execute(t, &masked)
+			o.MaskedStillFails = mr.Infra != "" || hasSig(mr.Viol, c.ExpectSig)
+		}
+	}
 	writeOut(out, o)
 	sort.Slice(r.Viol, func(i, j int) bool { return r.Viol[i].Sig < r.Viol[j].Sig })
 	for _, v := range r.Viol {
